@@ -57,4 +57,17 @@ theorem backlogOf_append_other (s : State) (remote r : Remote) (q : Queued) (h :
     have hne : ¬ b.1 = remote := by rw [this]; exact h
     simp [hne]
 
+theorem hasBacklog_dropBacklog (s : State) (remote : Remote) :
+    hasBacklog (dropBacklog s remote) remote = false := by
+  simp [hasBacklog, dropBacklog, List.any_filter]
+
+theorem continueBacklog_head {s : State} {remote : Remote} (h1 : hasExchange s remote = false)
+    {br : Remote} {q : Queued} {rest : List Queued}
+    (h2 : s.backlogs.find? (fun b => b.1 == remote) = some (br, q :: rest)) (hqc : q.msg.mtype = .con) :
+    continueBacklog s remote =
+      sendInitially { s with backlogs := setBacklog s.backlogs remote rest } remote q.msg q.monitor
+        q.maxRetr := by
+  unfold continueBacklog
+  simp only [h1, Bool.false_eq_true, ↓reduceIte, h2, drainBacklog, hqc, beq_self_eq_true]
+
 end Aiocoap.MsgLayer
